@@ -64,3 +64,13 @@ package frame
 //@ func FrameV1.ReturnToPool
 //@   requires f.builder == nil || f.dblReturnCheck == 0
 //@   ensures released [C13,C17]: old(f.builder) != nil ==> f.dblReturnCheck == 1 && f.data == nil && f.pooledSlice == nil
+
+//@ pred live(f *FrameV1) = f != nil && f.data != nil
+
+//@ func FrameV1.Clone
+//@   requires live(f) && f.builder != nil && f.pooledSlice != nil && len(f.pooledSlice) <= 65675
+//@   ensures same-fields [C17]: result.messageIndex == f.messageIndex && result.authIndex == f.authIndex && result.appendixIndex == f.appendixIndex && result.src == f.src && result.dst == f.dst && result.recvLink == f.recvLink && result.builder == f.builder && result.psDataOffset == f.psDataOffset
+//@   ensures same-bytes [C17]: len(result.data) == len(f.data) && (forall i int :: 0 <= i && i < len(f.data) ==> result.data[i] == f.data[i])
+//@   ensures isolated [C17]: base(result.data) != base(f.data) && fresh(base(result.data)) && base(result.pooledSlice) == base(result.data)
+//@   ensures room [C17]: len(result.pooledSlice) >= len(f.pooledSlice) && cap(result.data) >= len(f.pooledSlice) - f.psDataOffset
+//@   ensures original-untouched [C17]: len(f.data) == old(len(f.data)) && (forall i int :: 0 <= i && i < len(f.data) ==> f.data[i] == old(f.data[i]))
